@@ -103,6 +103,7 @@ extern "C" int LLVMFuzzerTestOneInput(const uint8_t* data, size_t size)
     g_stats.add(g_spec, g_config, p, ci);
     if (!v.ok)
     {
+        p.hint    = ci.subject;
         auto text = to_text(g_spec, g_config, p);
         write_file(g_out + "/fz-fail-" + std::to_string(getpid()) + ".prog", text);
         write_file(g_out + "/fz-fail-" + std::to_string(getpid()) + ".sig",
